@@ -219,6 +219,53 @@ Section WriteProofs.
   Proof. intros H; unfold stamp. replace (p_dev p =? 0) with false by lia. reflexivity. Qed.
 End WriteProofs.
 
+(* the refusal rule of write(false, ...): accepted exactly when everything fits, and then everything is queued;
+   refused: nothing is queued.  For every occupancy of the queue and every fragment count. *)
+Section WriteRefusal.
+  Context {A : Type}.
+  Variables F cap : Z.
+  Hypothesis HF : 0 < F.
+
+  Theorem write_refusal_exact (local qlen g : Z) (n : packet A) : 0 <= p_tags n ->
+    (size n <= F ->
+       (cap <= qlen + 1 -> write F cap false local qlen g n = (ErrFullBuffer, [])) /\
+       (qlen + 1 < cap -> write F cap false local qlen g n = (0, [stamp local n]))) /\
+    (F < size n ->
+       (cap - qlen < nfrag F n -> write F cap false local qlen g n = (ErrFullBuffer, [])) /\
+       (nfrag F n <= cap - qlen -> write F cap false local qlen g n = (0, map (stamp local) (split F g n)))).
+  Proof.
+    intros Ht. split; intros Hs.
+    - unfold write, write_plan. replace ((F <=? 0) || (size n <=? F)) with true by lia. cbn [negb andb].
+      split; intros Hq.
+      + replace (cap <=? qlen + 1) with true by lia. unfold enqueue, take. cbn [map]. now rewrite firstn_nil.
+      + replace (cap <=? qlen + 1) with false by lia. unfold enqueue. cbn [map]. f_equal.
+        apply take_all. rewrite len_cons, len_nil. lia.
+    - split; intros Hq.
+      + unfold write, write_plan. replace ((F <=? 0) || (size n <=? F)) with false by lia.
+        pose proof (Z.mul_succ_div_gt (size n) F HF) as Hd.
+        replace ((size n / F + 1) * F <? size n) with false by lia. cbn [negb andb].
+        unfold nfrag in Hq. replace (cap <=? qlen + size n / F) with true by lia.
+        unfold enqueue, take. cbn [map]. now rewrite firstn_nil.
+      + apply (write_is_split F cap HF); auto; try lia.
+  Qed.
+
+  Corollary write_false_all_or_nothing (local qlen g : Z) (n : packet A) : 0 <= p_tags n ->
+    (fst (write F cap false local qlen g n) = 0 ->
+       snd (write F cap false local qlen g n) = map (stamp local) (if size n <=? F then [n] else split F g n)) /\
+    (fst (write F cap false local qlen g n) <> 0 ->
+       fst (write F cap false local qlen g n) = ErrFullBuffer /\ snd (write F cap false local qlen g n) = []).
+  Proof.
+    intros Ht. destruct (write_refusal_exact local qlen g n Ht) as [H1 H2].
+    destruct (Z.leb_spec (size n) F) as [Hs|Hs].
+    - destruct (H1 Hs) as [Ha Hb]. destruct (Z.le_gt_cases cap (qlen + 1)) as [Hq|Hq].
+      + rewrite (Ha Hq). cbn [fst snd]. split; [discriminate | auto].
+      + rewrite (Hb ltac:(lia)). cbn [fst snd map]. split; [reflexivity | intros H; contradiction].
+    - destruct (H2 Hs) as [Ha Hb]. destruct (Z.lt_ge_cases (cap - qlen) (nfrag F n)) as [Hq|Hq].
+      + rewrite (Ha Hq). cbn [fst snd]. split; [discriminate | auto].
+      + rewrite (Hb Hq). cbn [fst snd]. split; [reflexivity | intros H; contradiction].
+  Qed.
+End WriteRefusal.
+
 (* ---- flag bits ------------------------------------------------------------- *)
 Lemma testbit_1 k : Z.testbit 1 k = (k =? 0).
 Proof.
@@ -1389,6 +1436,22 @@ Theorem thm_write_queues_split : forall (A : Type) (F cap : Z) (w : bool) (local
   (w = true \/ qlen + (nfrag F n - 1) < cap) -> nfrag F n <= cap - qlen ->
   write F cap w local qlen g n = (0, map (stamp local) (split F g n)).
 Proof. intros. now apply write_is_split. Qed.
+
+Theorem thm_write_refusal_exact : forall (A : Type) (F cap local qlen g : Z) (n : packet A), 0 < F -> 0 <= p_tags n ->
+  (size n <= F ->
+     (cap <= qlen + 1 -> write F cap false local qlen g n = (ErrFullBuffer, [])) /\
+     (qlen + 1 < cap -> write F cap false local qlen g n = (0, [stamp local n]))) /\
+  (F < size n ->
+     (cap - qlen < nfrag F n -> write F cap false local qlen g n = (ErrFullBuffer, [])) /\
+     (nfrag F n <= cap - qlen -> write F cap false local qlen g n = (0, map (stamp local) (split F g n)))).
+Proof. intros. now apply write_refusal_exact. Qed.
+
+Theorem thm_write_false_all_or_nothing : forall (A : Type) (F cap local qlen g : Z) (n : packet A), 0 < F -> 0 <= p_tags n ->
+  (fst (write F cap false local qlen g n) = 0 ->
+     snd (write F cap false local qlen g n) = map (stamp local) (if size n <=? F then [n] else split F g n)) /\
+  (fst (write F cap false local qlen g n) <> 0 ->
+     fst (write F cap false local qlen g n) = ErrFullBuffer /\ snd (write F cap false local qlen g n) = []).
+Proof. intros. now apply write_false_all_or_nothing. Qed.
 
 Theorem thm_reassemble_any_order : forall (A : Type) (F g self : Z) (n : packet A) (evs : list (ev A)) (st0 : state A),
   HeaderSize <= F -> 0 <= p_tags n -> F < size n -> nfrag F n <= 65535 -> addressed self n ->
